@@ -44,13 +44,13 @@ func (c04) RealStub() map[string]string {
 }
 func (c04) Runs(t Tier) int {
 	if t == Thorough {
-		return 60000
+		return 400000
 	}
 	return 4000
 }
 func (c04) RecordWidths() map[string]int { return map[string]int{"ops": 4} }
 func (c04) RequiredProbes() []string {
-	return []string{"seek-on-boundary", "seek-end-relative-on-boundary", "read-crosses-interior-boundary", "read-at-eof", "negative-seek", "readers-interleaved-mid-chunk", "seek-past-end", "dedup-dag", "depth>=3"}
+	return []string{"seek-on-boundary", "seek-end-relative-on-boundary", "read-crosses-interior-boundary", "read-at-eof", "negative-seek", "readers-interleaved-mid-chunk", "seek-past-end", "dedup-dag", "depth>=3", "node-asbytes-mid-history", "reader-replaced-mid-history"}
 }
 
 type c04Op struct {
@@ -188,10 +188,39 @@ func (c04) Run(ts *tape.Set, tier Tier) *Result {
 		ops := ts.T("ops")
 		for i := 0; i < nOps && res.Violation == nil; i++ {
 			ri := ops.Intn(nReaders)
-			kind := ops.Pick(5, 3, 2, 2) // Read, SeekStart, SeekCurrent, SeekEnd
+			kind := ops.Pick(10, 6, 4, 4, 1, 1) // Read, SeekStart, SeekCurrent, SeekEnd, node.AsBytes, replace reader
 			a := ops.Raw()
 			b := ops.Raw()
 			r := readers[ri]
+			if kind == 4 {
+				// a whole-value read of the shared node in the middle of the
+				// history: it must return the content and must not disturb any reader
+				sc.Ops = append(sc.Ops, c04Op{Reader: -1, Op: "node.AsBytes"})
+				all, err := node.AsBytes()
+				sig = fnvMix(sig, 3, boolU(err == nil))
+				if err != nil {
+					res.fail("c04/asbytes-error", "op %d: AsBytes on the node returned error %v", i, err)
+					return
+				}
+				if !bytes.Equal(all, content) {
+					res.fail("c04/asbytes-wrong-bytes", "op %d: AsBytes on the node returned %d bytes that differ from the content (%d bytes)", i, len(all), L)
+					return
+				}
+				res.probe("node-asbytes-mid-history")
+				continue
+			}
+			if kind == 5 {
+				// the client drops its reader and asks the node for a new one
+				sc.Ops = append(sc.Ops, c04Op{Reader: ri, Op: "new reader"})
+				rs, err := node.(datamodel.LargeBytesNode).AsLargeBytes()
+				if err != nil {
+					res.fail("c04/open-failed", "op %d: AsLargeBytes: %v", i, err)
+					return
+				}
+				readers[ri] = &rd{rs: rs}
+				res.probe("reader-replaced-mid-history")
+				continue
+			}
 			if kind == 0 {
 				// ---- Read(k)
 				var k int
